@@ -274,6 +274,15 @@ class History:
                 return True
             self.fail(f"crash-only-after-history:{c.kind}@{c.where}", observed=str(c), expected="same as a fresh object")
             return True
+        # ---- a build without angle limit keeps every internal interface (whatever was built before, anywhere)
+        if op in ("build", "sysvel"):
+            for t_ in ([step["t"]] if op == "build" else range(self.n)):
+                if self.last_build[t_].get("limit") == "inf":
+                    fm_ = self.fsys.force_matrices[t_]
+                    n_int = len(self.fsys.frames[t_].internal_big_edges)
+                    if len(fm_.big_edges_to_use) != n_int:
+                        return self.fail("unlimited-build-dropped-interfaces", observed=len(fm_.big_edges_to_use),
+                                         expected=n_int, detail={"frame": t_}) or True
         # ---- other frames' stores untouched
         if op in ("solve", "psolve", "pbuild", "build"):
             for k, v in before.items():
@@ -473,11 +482,37 @@ class ForSysMachine(RuleBasedStateMachine):
     def psolve(self, step):
         self._do(step)
 
-    @rule(step=SYSVEL)
-    def sysvel(self, step):
+    @rule(step=SYSVEL, s=SOLVE)
+    def sysvel(self, step, s):
+        """get_system_velocity_per_frame() rebuilds every force matrix (no limit, dlite); a solve right after it
+        must use those matrices."""
         self._do(step)
+        if self.h is not None and not self.h.dead and self.h.last_build:
+            self._do(s)
+
+    def closing_sequence(self):
+        """Every history ends the same way: each solved frame is solved once more with the other right-hand side
+        (no rebuild) and its pressure step is redone, so stale caches of either step always get a chance to show."""
+        h = self.h
+        for t in sorted(h.last_solve):
+            if h.dead:
+                return
+            prev = h.last_solve[t]
+            s = dict(prev, op="solve", t=sorted(h.last_build).index(t),
+                     b_matrix=("velocity" if prev.get("b_matrix") is None else None), method=None)
+            self._do(s)
+            if h.dead:
+                return
+            self._do({"op": "pbuild", "t": sorted(h.last_solve).index(t)})
+            if not h.dead and t in h.pbasis:
+                self._do({"op": "psolve", "t": sorted(h.pbasis).index(t)})
 
     def teardown(self):
+        if self.h is not None and not self.h.dead:
+            try:
+                self.closing_sequence()
+            except Exception:
+                raise
         if self.h is not None and not self.h.dead:
             h = self.h
             CTX.count("steps", len(h.steps))
@@ -502,9 +537,9 @@ def check_history(params, ctx):
 def run(ctx):
     global CTX
     CTX = ctx
-    n = ctx.budget(quick=60, thorough=250)
+    n = ctx.budget(quick=55, thorough=250)
     from hypothesis import settings, HealthCheck, Phase
-    st_ = settings(max_examples=n, stateful_step_count=16, database=None, deadline=None, derandomize=False,
+    st_ = settings(max_examples=n, stateful_step_count=18, database=None, deadline=None, derandomize=False,
                    report_multiple_bugs=False, suppress_health_check=list(HealthCheck),
                    phases=[Phase.generate], print_blob=False)
     machine = hypothesis.seed(int(ctx.seed) * 7919 + 3)(ForSysMachine)
